@@ -41,15 +41,37 @@ def erase(j: Any) -> Any:
     return j
 
 
+def gen_best_race(r: random.Random) -> dict[str, Any]:
+    """Two or three threads finish different RUNNING trials of one study at the same time, all improving on the
+    current best; afterwards the storage is asked for the best trial."""
+    d = r.choice([1, 2])
+    setup: list[dict[str, Any]] = [{"op": "createStudy", "name": "s0", "dirs": [d]}]
+    nthreads = r.choice([2, 2, 3])
+    for _ in range(nthreads + 1):
+        setup.append({"op": "createTrial", "sid": 0, "tmpl": None})
+    sign = 1.0 if d == 1 else -1.0
+    setup.append({"op": "setTrialStateValues", "tid": nthreads, "state": 1, "values": [K.ftok(sign * 5.0)]})
+    vals = r.sample([1.0, 2.0, 3.0, 4.0], nthreads)
+    calls = [{"thread": th, "op": {"op": "setTrialStateValues", "tid": th, "state": 1, "values": [K.ftok(sign * vals[th])]}} for th in range(nthreads)]
+    if r.random() < 0.3:
+        calls.append({"thread": r.randrange(nthreads), "op": {"op": "getBestTrial", "sid": 0}})
+    calls.append({"thread": nthreads, "op": {"op": "getBestTrial", "sid": 0}})
+    return {"setup": setup, "calls": calls, "nthreads": nthreads}
+
+
 def gen_case(r: random.Random) -> dict[str, Any]:
+    if r.random() < 0.12:
+        return gen_best_race(r)
     setup: list[dict[str, Any]] = [{"op": "createStudy", "name": "s0", "dirs": [1]}]
     n_studies = 1
     if r.random() < 0.3:
         setup.append({"op": "createStudy", "name": "s1", "dirs": [2]})
         n_studies = 2
     trials: list[tuple[int, int]] = []  # (tid, state)
+    trial_sid: dict[int, int] = {}
     for _ in range(r.randint(2, 5)):
         sid = r.randrange(n_studies)
+        trial_sid[len(trials)] = sid
         if r.random() < 0.5:
             setup.append({"op": "createTrial", "sid": sid, "tmpl": None})
             trials.append((len(trials), 0))
@@ -59,6 +81,8 @@ def gen_case(r: random.Random) -> dict[str, Any]:
             trials.append((len(trials), 4))
     waiting = [t for t, st in trials if st == 4]
     running = [t for t, st in trials if st == 0]
+    free_running = list(running)
+    r.shuffle(free_running)
     nthreads = r.choice([2, 2, 3])
     progs: list[list[dict[str, Any]]] = []
     calls: list[dict[str, Any]] = []  # global call list; each has thread + op (with refs by global index)
@@ -68,8 +92,15 @@ def gen_case(r: random.Random) -> dict[str, Any]:
         return len(calls) - 1
 
     for th in range(nthreads):
-        fam = r.choice(["worker", "worker", "claimer", "attrs", "creator", "reader", "mixed"])
-        if fam == "worker":
+        fam = r.choice(["worker", "worker", "claimer", "attrs", "creator", "reader", "mixed", "finisher"])
+        if fam == "finisher" and free_running:
+            # finish RUNNING trials of one study with distinct values (the best-trial bookkeeping of two
+            # finishers must not be interleaved); each trial is finished by one thread only
+            for t in [free_running.pop() for _ in range(min(len(free_running), r.randint(1, 2)))]:
+                add(th, {"op": "setTrialStateValues", "tid": t, "state": 1, "values": [K.ftok(float(r.choice([-3, -2, -1, 0, 1, 2, 3]) + 0.25 * th))]})
+                if r.random() < 0.3:
+                    add(th, {"op": "getBestTrial", "sid": trial_sid[t]})
+        elif fam == "worker":
             sid = r.randrange(n_studies)
             c = add(th, {"op": "createTrial", "sid": sid, "tmpl": None})
             if r.random() < 0.7:
@@ -99,6 +130,7 @@ def gen_case(r: random.Random) -> dict[str, Any]:
                 add(th, r.choice([{"op": "getAllTrials", "sid": r.randrange(n_studies), "states": None},
                                   {"op": "getNTrials", "sid": r.randrange(n_studies), "states": None},
                                   {"op": "getAllTrials", "sid": 0, "states": [4]},
+                                  {"op": "getBestTrial", "sid": r.randrange(n_studies)},
                                   {"op": "getAllStudies"}]))
         else:
             if running:
@@ -110,6 +142,9 @@ def gen_case(r: random.Random) -> dict[str, Any]:
             add(th, {"op": "createTrial", "sid": 0, "tmpl": None})
         if not any(c["thread"] == th for c in calls):
             add(th, {"op": "createTrial", "sid": 0, "tmpl": None})
+    # after all threads: what the best-trial bookkeeping ended up with (a pseudo-thread that starts when all are done)
+    for sid in range(n_studies):
+        calls.append({"thread": nthreads, "op": {"op": "getBestTrial", "sid": sid}})
     return {"setup": setup, "calls": calls, "nthreads": nthreads}
 
 
@@ -185,6 +220,14 @@ def run_case(cfg: str, case: dict[str, Any], seed: int, tmp: str, schedule: list
                 t.start()
             for t in ths:
                 t.join(120)
+        # the trailing sequential calls (pseudo-thread `nth`): invoked after every thread has returned
+        for ci, c in enumerate(case["calls"]):
+            if c["thread"] == nth:
+                inv = now() + 1
+                raw = execs[0].run(dict(c["op"]))
+                results[ci] = {"inv": inv, "ret": inv + 1, "raw": raw, "op": c["op"]}
+                if controlled:
+                    s.clock = inv + 1
         if len(results) != len(case["calls"]):
             return {"crash": "only %d of %d calls completed" % (len(results), len(case["calls"])), "trace": s.trace}
         # observations with ids erased; created trials are reported by their number
